@@ -2,10 +2,15 @@
 import time, re
 from lib.common import run_tasks, finish
 
-HEAVY = re.compile(r'^(sym_|qr_laws|qr_repeat|sg_laws|sg_repeat|ec_scalar|ec_laws|ec_repeat|ec_agree:|hc_laws|hc_repeat|cl_laws|cl_repeat|cl_exhaustive|cl_ctor|cl_codec)')
+HEAVY = re.compile(r'^(sym_|qr_laws|qr_repeat|qr_codec|sg_laws|sg_repeat|sg_codec|ec_scalar|ec_laws|ec_repeat|ec_agree:|hc_laws|hc_repeat|cl_laws|cl_repeat|cl_exhaustive|cl_ctor|cl_codec)')
+
+# measured cost (seconds, thorough tier) of the longest natives: they are started first
+SLOW = {'qr_laws': 290, 'sg_laws': 290, 'cl_laws:l': 260, 'cl_codec': 200, 'hc_laws:l=640': 180, 'ec_laws:Ed448:affine': 200, 'ec_laws:Ed448:projective': 160,
+        'cl_repeat:l': 130, 'hc_laws:genus=2,l=256': 130, 'ec_laws:Ed25519:affine': 90}
 
 
 def weight(name):
+    if name in SLOW: return float(SLOW[name])
     w = 1.0
     if 'Ed448' in name: w *= 3
     if 'twist' in name: w *= 2
